@@ -696,7 +696,7 @@ func c10MPBGV(m *c10MP) {
 func c10MPCKKS(c *Ctx) {
 	cp, err := ckks.NewParametersFromLiteral(ckks.ParametersLiteral{LogN: 5, LogQ: []int{55, 45, 45, 45, 45}, LogP: []int{55}, LogDefaultScale: 45})
 	must(err)
-	cp2, err := ckks.NewParametersFromLiteral(ckks.ParametersLiteral{LogN: 5, LogQ: []int{56, 45, 45, 45, 45, 45}, LogP: []int{56}, LogDefaultScale: 45})
+	cp2, err := ckks.NewParametersFromLiteral(ckks.ParametersLiteral{LogN: 5, LogQ: []int{56, 45, 45, 45, 45, 45}, LogP: []int{56}, LogDefaultScale: 40})
 	must(err)
 	nf := ring.DiscreteGaussian{Sigma: 8, Bound: 48}
 	kgen, kgen2 := rlwe.NewKeyGenerator(cp), rlwe.NewKeyGenerator(cp2)
